@@ -170,9 +170,11 @@ def postprocess(src, dst):
                        if r.get("op") == "psub" and r.get("agg") is not None and r.get("rep", {}).get("t") == "ok"})
         for x in aggs:
             streams.setdefault(x, [])
+        # (flattened here, once: <<kind, key, value>> per recorded event, in order)
+        aggflat = {x: [[e["t"], kv[0], kv[1]] for e in streams[x] for kv in e["kvs"]] for x in aggs}
         total += sum(len(l) for l in sess.values()) + 1
         out.append({"sessions": {k: ({"log": v, "cid": cids[k]} if cids[k] != k else {"log": v}) for k, v in sess.items()},
-                    "streams": streams, "aggs": aggs, "extmon": bool(sc.get("extmon")), "proto": sc.get("proto", "UNIX"),
+                    "streams": streams, "aggs": aggs, "aggflat": aggflat, "extmon": bool(sc.get("extmon")), "proto": sc.get("proto", "UNIX"),
                     "exact": sc.get("exact", []), "extra": sc.get("extra", []),
                     "auth_required": bool(sc.get("auth_required"))})
     with open(dst, "w") as f:
@@ -193,6 +195,8 @@ def validate_once(d, trace, flags, check_ref, timeout=600):
     env["TRACE"] = trace
     out = vlib.tlc(sub, "Trace_Session", cfg, workers=1, timeout=timeout, env=env, heap="4g")
     shutil.rmtree(os.path.join(sub, "md"), ignore_errors=True)
+    if "Parsing or semantic analysis failed" in out or "*** Errors:" in out:
+        raise vlib.ToolError("Trace_Session does not parse:\n" + out[-3000:])
     if "Invariant NotAccepted is violated" in out:
         used = []
         for line in out.splitlines():
